@@ -24,6 +24,10 @@ Property oracle (spec vs implementation): the property text applied to the imple
                   permuted databases / platform order == full run
                   random sub-configurations == union of their single-command runs (histories)
                   full run succeeds  <=>  every single-command run succeeds
+Streams:        main / lang / paste (harness/gen/c08gen.py) and `tu` (harness/gen/c08tu.py, run_tu below): databases
+                mixing entries with and without `directory`, conditional `#pragma once` with deliberate multiple
+                inclusion, `__COUNTER__` conditions - state that is neither in the macro table nor in the once-list
+                of the per-command Platform object.  Same oracles for every stream.
 """
 from __future__ import annotations
 
@@ -38,6 +42,7 @@ import sys
 
 from harness import core
 from harness.gen import c08gen
+from harness.gen import c08tu
 from harness.gen import codebase as cbgen
 
 KIND = {"CodeNode": "code", "IfNode": "ifk", "ElIfNode": "elifk", "ElseNode": "elsek", "EndIfNode": "endk",
@@ -188,7 +193,7 @@ def child_find(d, plat_cmds, tag):
     for name, cmds in plat_cmds:
         db = os.path.join(d, "var", f"{tag}_{name}.json")
         with open(db, "w") as g:
-            json.dump([dict(x, directory=root) for x in cmds], g)
+            json.dump([c08gen.db_entry(x, root) for x in cmds], g)
         cfg[name] = config.load_database(db, root)
     cb = CodeBase(root)
     st = finder.find(root, cb, cfg)
@@ -443,6 +448,7 @@ def check_codebase(ctx, drv, desc, origin, cli=False, only=None):
         toml = c08gen.write_variant(d, "full", full_cfg)
         full = isolated(child_main, d, toml, [], "main")
         rep["full"] = {k: full.get(k) for k in ("exc", "msg", "setmap", "warns")}
+        rep["full"]["cfg_view"] = _cfg_view(full, d)
         ctx.count(key=f"stream={desc['stream']};platforms={len(plats)};commands={len(allcmds)}")
         for ft in desc["features"]:
             ctx.dist["feature:" + ft] += 1
@@ -489,6 +495,8 @@ def check_codebase(ctx, drv, desc, origin, cli=False, only=None):
                                    _small(s1), _small(c1))
             case["model_mixed"] = allmix
             ctx.dist["NoMix(full and singles):" + ("holds" if not allmix else "fails")] += 1
+        if origin == "replay":
+            rep["single_cfg_view"] = {f"{p}[{i}]": _cfg_view(s1, d).get(p) for (p, i), s1 in single.items()}
         ok_singles = all("ok" in s for s in single.values())
         rep["single_fail"] = [f"{p}[{i}]: {s.get('exc')} {s.get('msg', '')[:80]}" for (p, i), s in single.items() if "ok" not in s]
         # success composes
@@ -716,6 +724,14 @@ def check_codebase(ctx, drv, desc, origin, cli=False, only=None):
     return rep
 
 
+def _cfg_view(res, d):
+    """what load_database made of the databases: per platform [file, include directories] relative to the scratch directory"""
+    if "cfg" not in res:
+        return {}
+    return {p: [[os.path.relpath(e["file"], d), [os.path.relpath(x, d) for x in e["include_paths"]]] for e in es]
+            for p, es in res["cfg"]}
+
+
 def _lines(res, keys):
     out = collections.defaultdict(list)
     for (f, i) in sorted(keys):
@@ -797,7 +813,12 @@ def run(ctx, drv):
         "same header name in two -I directories, -include files, headers outside the code base, function-like macros "
         "in #if, -D sets differing per command, multi-pass compilers and a user-defined extend_match compiler; a stream "
         "with C / Fortran / assembler includers of one header that is outside or inside the code base and may include "
-        "a second foreign file), 1-4 "
+        "a second foreign file; a stream `tu` of small code bases with state a translation unit can leave outside its "
+        "macro table: compilation databases mixing entries with and without `directory` (root / sub-directories, "
+        "relative and absolute, `file` and -I spelled relative to the entry's directory, the same spellings below "
+        "several directories), headers whose `#pragma once` sits under a conditional and that are included several "
+        "times on purpose with other WANT_* switches by units in which the condition is true and units in which it is "
+        "false, `#if` / `#elif` on `__COUNTER__` in >= 2 units), 1-4 "
         "platforms; every analysis runs in its own forked process. Per code base: full run vs the union of all "
         "single-command runs, <=7 (quick) / <=15 (thorough) -p subsets through the real _main/_tree, permutations of "
         "commands and platforms, random sub-configurations, load_database whole vs per command, the Lean models (the "
@@ -810,6 +831,12 @@ def run(ctx, drv):
         "a 'compile command analysed alone from a fresh state' is observed as: the tool run in a newly forked process "
         "on a configuration holding that single database command (all its compiler passes)",
         "attribution is compared per parse-tree node (kind, physical lines, platform set), which implies per line",
+        "an entry without `directory` is read relative to the analysis root (what load_database documents); the "
+        "single-command run of such an entry is a database holding that entry alone, loaded by the real load_database",
+        "`__COUNTER__` conditions are judged by composition only (full == union of fresh single-command runs == any "
+        "order == projection), never against a value: an implementation without the extension (identifier = 0) and "
+        "one that restarts the sequence per translation unit both compose; the Lean model has no `__COUNTER__` "
+        "(identifier = 0, as the pinned code), so adding the extension correctly would show as a correspondence break",
         "the generic-fold instance findI is the C-family instance (FindInst.semPP) of the one total engine of "
         "Model/Exclude.lean (C08.findI_is_engine); it equals the cached engine under the driver's semantics on inputs "
         "satisfying the decidable ClassOK and NoMix (C08.findI_eq_cached_engine_partial; both evaluated by the driver "
@@ -828,11 +855,14 @@ def run(ctx, drv):
     ]
     # corpus first
     for f in sorted((core.VERIF / "corpus" / "C08").glob("*.json")):
+        if f.name.startswith("tu_"):
+            continue  # replayed by run_tu (under its own generator, so that the main stream is not shifted)
         c = json.loads(f.read_text())
         check_codebase(ctx, drv, c["desc"], "corpus:" + f.name)
+    spent_tu = run_tu(ctx, drv)
     n = ctx.n(30, 300)
     for i in range(n):
-        if ctx.elapsed() > (65 if not ctx.thorough() else 470) * max(1.0, ctx.budget_scale / 2):
+        if ctx.elapsed() > (65 if not ctx.thorough() else 470) * max(1.0, ctx.budget_scale / 2) + spent_tu:
             ctx.notes.append(f"time budget reached after {i} code bases")
             break
         r = ctx.rng.random()
@@ -849,6 +879,42 @@ def run(ctx, drv):
                         "files": sorted(desc["texts"]), "state_matters": rep.get("state_matters")})
 
 
+def run_tu(ctx, drv):
+    """stream `tu` (harness/gen/c08tu.py): databases mixing entries with / without `directory`, conditional
+    `#pragma once` + deliberate multiple inclusion, `__COUNTER__` conditions.  Same oracles as every other
+    code base (check_codebase).  The stream draws from a generator forked from ctx.rng WITHOUT advancing it, so
+    the main stream below is the one it was before this stream existed.  Returns the seconds it took (the main
+    loop's time budget is extended by that much)."""
+    import random
+    import time
+
+    t0 = time.time()
+    main_rng = ctx.rng
+    probe = random.Random()
+    probe.setstate(main_rng.getstate())
+    ctx.rng = random.Random(probe.getrandbits(64) ^ 0xC08)
+    limit = (15 if not ctx.thorough() else 60) * max(1.0, ctx.budget_scale / 2)
+    try:
+        for f in sorted((core.VERIF / "corpus" / "C08").glob("tu_*.json")):
+            check_codebase(ctx, drv, json.loads(f.read_text())["desc"], "corpus:" + f.name)
+        for i in range(ctx.n(14, 90)):
+            if i >= 6 and time.time() - t0 > limit:
+                ctx.notes.append(f"stream tu: time budget reached after {i} code bases")
+                break
+            force = ("dirs", "once", "counter")[i % 3] if i < 6 else None  # each shape twice, then free mixtures
+            desc = c08tu.gen_tu(ctx.rng, force)
+            for k in c08tu.shape(desc):
+                ctx.dist["tu:" + k] += 1
+            rep = check_codebase(ctx, drv, desc, f"seed{ctx.seed}:tu{i}")
+            if i < 1 or (i == 1 and len(ctx.samples) < 2):
+                ctx.sample({"origin": rep["origin"], "stream": "tu", "features": desc["features"],
+                            "platforms": {p: [c08gen.db_entry(c, "$ROOT") for c in cs] for p, cs in desc["platforms"].items()},
+                            "files": sorted(desc["texts"]), "state_matters": rep.get("state_matters")})
+    finally:
+        ctx.rng = main_rng
+    return min(time.time() - t0, limit + 5)
+
+
 def search(ctx, drv):
     run(ctx, drv)
 
@@ -858,14 +924,22 @@ def replay(ctx, drv, case):
     desc = case["desc"]
     ctx2 = core.Ctx("C08", "quick", ctx.seed)
     rep = check_codebase(ctx2, drv, desc, "replay", cli=bool(case.get("cli")))
+    if any("directory" in c for cs in desc["platforms"].values() for c in cs):
+        # entries as written into the databases ($ROOT = the analysis root; no "directory" key = none written)
+        rep_entries = {p: [c08gen.db_entry(c, "$ROOT") for c in cs] for p, cs in desc["platforms"].items()}
+    else:
+        rep_entries = None
     pp = rep.get("per_platform", {})
     differing = {p: v for p, v in pp.items()
                  if len({json.dumps(x, sort_keys=True) for x in v.values()}) > 1} or pp
     out = {"what": case.get("what"),
            "files": desc["texts"], "platforms": {p: [c["arguments"] for c in cs] for p, cs in desc["platforms"].items()},
            "implementation_full_run": {k: (rep.get("full") or {}).get(k) for k in ("exc", "msg", "setmap")},
+           "entries_loaded_by_load_database (whole databases)": (rep.get("full") or {}).get("cfg_view"),
+           "entries_loaded_by_load_database (each command alone)": rep.get("single_cfg_view"),
            "single_command_failures": rep.get("single_fail"),
            "lines_used_per_platform (platforms where implementation / union / model / spec differ, else all)": differing,
+           "database_entries": rep_entries,
            "checks_failed": rep["checks"], "model": rep.get("model"),
            "violations": [w for w, _ in ctx2.violations], "known_findings": sorted(ctx2.known_seen),
            "correspondence_breaks": len(ctx2.corr_breaks)}
